@@ -35,6 +35,7 @@ type Scenario struct {
 	Ez          *EzSpec        `json:"ez,omitempty"`
 	Stream      *StreamSpec    `json:"stream,omitempty"`
 	Wrap        *WrapSpec      `json:"wrap,omitempty"`
+	Plain       *PlainSpec     `json:"plain,omitempty"`
 }
 
 type SourceSpec struct {
